@@ -3,7 +3,7 @@
 usage: python3 tools/seed_battery.py [ids...]"""
 import json, os, shutil, subprocess, sys, tempfile
 ROOT = "/verif"
-ids = sys.argv[1:] or sorted(os.listdir(os.path.join(ROOT, "seeded")))
+ids = sys.argv[1:] or sorted(d for d in os.listdir(os.path.join(ROOT, "seeded")) if "_" not in d)  # round-3 seeds (<ID>_A/B): pass them explicitly
 summary = []
 for sid in ids:
     d = os.path.join(ROOT, "seeded", sid)
